@@ -77,21 +77,26 @@ def walk(c, out, visit):
 def shrink_candidates(c):
     ev = c["events"]
     for i in range(len(ev) - 1):
-        yield {"peers": c["peers"], "events": ev[:i] + ev[i + 1:]}
+        yield dict(c, events=ev[:i] + ev[i + 1:])
 
 
-def run(ctx, pid, oracle, name, assumptions, fields=("view", "adjin", "counters", "rib"), extra_trusted=(), kinds=("ebgp", "ibgp", "rr"), extra=None, addpath=0.0, extra_cases=None):
+def run(ctx, pid, oracle, name, assumptions, fields=("view", "adjin", "counters", "rib"), extra_trusted=(), kinds=("ebgp", "ibgp", "rr"), extra=None, addpath=0.0, extra_cases=None, watch=False):
     norm_impl, norm_model = mk_norms(fields)
     proof = core.coq_properties(pid)
     ctx.say("proof stage: ok=%s theorems=%d audit=%d (%.1fs)" % (proof["ok"], len(proof["theorems"]), len(proof["audit"]), proof.get("wall_s", 0)))
     n = ctx.scale(1500, 40000)
-    cases = [simlib.gen_scenario(ctx.rng, kinds=kinds, addpath=addpath) for _ in range(n)]
+    def gen():
+        c = simlib.gen_scenario(ctx.rng, kinds=kinds, addpath=addpath)
+        if watch:
+            c["watch"] = True          # a consumer of the best-path stream runs alongside
+        return c
+    cases = [gen() for _ in range(n)]
     if extra_cases:
         cases += extra_cases(ctx)
     cov = core.differential(ctx, "spk", proof, cases, simlib.sim_line, oracle, norm_impl=norm_impl, norm_model=norm_model,
                             model_line_of=simlib.model_line, shrink_candidates=shrink_candidates,
                             nontrivial=lambda c: sum(1 for e in c["events"] if e[0] in ("ann", "wd", "apiadd", "apidel")) >= 3,
-                            more_cases=lambda: [simlib.gen_scenario(ctx.rng, kinds=kinds, addpath=addpath) for _ in range(n)],
+                            more_cases=lambda: [gen() for _ in range(n)],
                             correspondence_name=name, impl_spec=IMPL_SPEC, model_name="spk")
     pc = core.proof_coverage(proof)
     pc.update(cov)
